@@ -155,7 +155,8 @@ func (c *TextLayout) ToBytes(e *Event) []byte {
 	enc.AppendEncoderEnd()
 
 	buf.WriteByte('\n')
-	return buf.Bytes()
+	// The buffer goes back to the pool on return: hand out a copy, not its bytes.
+	return append([]byte(nil), buf.Bytes()...)
 }
 
 // JSONLayout formats a log event as a structured JSON object.
@@ -187,5 +188,6 @@ func (c *JSONLayout) ToBytes(e *Event) []byte {
 	enc.AppendEncoderEnd()
 
 	buf.WriteByte('\n')
-	return buf.Bytes()
+	// The buffer goes back to the pool on return: hand out a copy, not its bytes.
+	return append([]byte(nil), buf.Bytes()...)
 }
